@@ -477,7 +477,14 @@ func c06(ctx *core.Ctx) {
 				req.Hdr["X-Panic"] = "H"
 			}
 			hr := rt.HTTPRequest(&req, nil)
-			hr = hr.WithContext(context.WithValue(context.Background(), fLogKey{}, lg))
+			cctx := context.WithValue(context.Background(), fLogKey{}, lg)
+			if rq.ID%7 == 3 {
+				// the client went away: the chain runs all the same (what to do about it is the application's business)
+				var cancel context.CancelFunc
+				cctx, cancel = context.WithCancel(cctx)
+				cancel()
+			}
+			hr = hr.WithContext(cctx)
 			rec := rt.NewRec()
 			var pan interface{}
 			func() {
@@ -528,6 +535,14 @@ func c06(ctx *core.Ctx) {
 		for i := range reqs {
 			run(&reqs[i], "sequential")
 		}
+		// the same list with trace logging on (tracing only logs)
+		restful.EnableTracing(true)
+		for i := range reqs {
+			if i%2 == 0 {
+				run(&reqs[i], "trace-on")
+			}
+		}
+		restful.EnableTracing(false)
 		// the same list from 16 goroutines
 		var wg sync.WaitGroup
 		start := make(chan struct{})
